@@ -911,3 +911,144 @@ def rule_visitcrc(text):
         apps.append(_app("R-visitcrc", text, a, b, new,
                          "shim with visit_blocks' verified contract: the visitor folds crc32c over every chunk and never stops the walk"))
         text = text[:a] + new + text[b:]
+
+
+# ---------------------------------------------------------------- write-batch unit rules
+_FORVEC = set()
+
+
+def rule_forvec(text):
+    """`for X in V {` over a Vec moved in (V named in UNIT['forvec']) ->
+    `let mut V_q_ = VecQueue::new(V); while let Some(X) = V_q_.pop_front() {`"""
+    apps = []
+    for v in sorted(_FORVEC):
+        while True:
+            m = mask(text)
+            mm = re.search(r"for\s+(\w+)\s+in\s+%s\s*\{" % re.escape(v), m)
+            if not mm:
+                break
+            new = "let mut %s_q_ = VecQueue::new(%s); while let Some(%s) = %s_q_.pop_front() {" % (v, v, mm.group(1), v)
+            apps.append(_app("R-forvec", text, mm.start(), mm.end(), new, "shim: by-value iteration of a Vec = popping its elements front to back"))
+            text = text[:mm.start()] + new + text[mm.end():]
+    return text, apps
+
+
+def rule_eprint(text):
+    """`eprintln!(...);` statements are dropped (logging only)"""
+    apps = []
+    while True:
+        m = mask(text)
+        mm = re.search(r"\beprintln!\s*\(", m)
+        if not mm:
+            return text, apps
+        cl = match_close(m, mm.end() - 1)
+        end = cl + 1
+        t = re.match(r"\s*;", m[end:])
+        if t:
+            end += t.end()
+        apps.append(_app("R-eprint", text, mm.start(), end, "", "dropped: a log line on stderr"))
+        text = text[:mm.start()] + text[end:]
+
+
+def rule_extend(text):
+    """`A.extend(B.drain(..).map(|write| write.entry))` -> `B.drain_entries_into(&mut A)`;
+    `A.extend(V)` with V an identifier -> `vec_extend(&mut A, V)`"""
+    apps = []
+    while True:
+        m = mask(text)
+        hit = None
+        for dot, op, cl in _method_calls(text, m, "extend"):
+            rs = _receiver_start(m, dot)
+            recv = text[rs:dot].strip()
+            arg = text[op + 1:cl].strip()
+            if not re.fullmatch(r"\w+", recv):
+                continue
+            dm = re.fullmatch(r"(\w+)\s*\.\s*drain\s*\(\s*\.\.\s*\)\s*\.\s*map\s*\(\s*\|\s*(\w+)\s*\|\s*(\w+)\s*\.\s*entry\s*\)", arg)
+            if dm and dm.group(2) == dm.group(3):
+                hit = (rs, cl + 1, "%s.drain_entries_into(&mut %s)" % (dm.group(1), recv),
+                       "shim: drain(..) + map to the entry + extend = move every entry over, in order, leaving the source empty")
+                break
+            if re.fullmatch(r"\w+", arg):
+                hit = (rs, cl + 1, "vec_extend(&mut %s, %s)" % (recv, arg), "shim: Vec::extend with a Vec moved in = append its elements in order")
+                break
+        if not hit:
+            return text, apps
+        a, b, new, tr = hit
+        apps.append(_app("R-extend", text, a, b, new, tr))
+        text = text[:a] + new + text[b:]
+
+
+def rule_sumext(text):
+    """`G.iter().map(|entry| format_extent_size(entry, format) as u64).sum::<u64>()` -> `sum_extent_sizes(G, format)`"""
+    apps = []
+    m = mask(text)
+    mm = re.search(r"(\w+)\s*\.\s*iter\s*\(\s*\)\s*\.\s*map\s*\(\s*\|\s*(\w+)\s*\|\s*format_extent_size\s*\(\s*(\w+)\s*,\s*format\s*\)\s*as\s+u64\s*\)\s*\.\s*sum\s*::\s*<\s*u64\s*>\s*\(\s*\)", m)
+    if mm and mm.group(2) == mm.group(3):
+        new = "sum_extent_sizes(%s, format)" % mm.group(1)
+        apps.append(_app("R-sum", text, mm.start(), mm.end(), new, "shim: Iterator::sum of the mapped extent sizes (wrapping excluded by its precondition)"))
+        text = text[:mm.start()] + new + text[mm.end():]
+    return text, apps
+
+
+def rule_sig_wb(text):
+    """signature rule for the write-batch unit: lock-wrapped handles and the trait object become the opaque handles"""
+    apps = []
+    table = [
+        (r"&\s*dyn\s+RecordFormat\b", "&FormatAny", "one opaque handle for FormatV1/FormatV2"),
+        (r"&\s*Arc\s*<\s*RwLock\s*<\s*FreeSpaceManager\s*>\s*>", "&FreeSpaceLock", "lock handle; write() yields the manager"),
+        (r"&\s*Arc\s*<\s*RwLock\s*<\s*DiskIO\s*>\s*>", "&DiskLock", "lock handle; write() yields the device"),
+        (r"&\s*Arc\s*<\s*Statistics\s*>", "&Statistics", "Arc dropped"),
+    ]
+    for pat, rep, why in table:
+        while True:
+            m = mask(text)
+            mm = re.search(pat, m)
+            if not mm:
+                break
+            apps.append(_app("R-handle", text, mm.start(), mm.end(), rep, why))
+            text = text[:mm.start()] + rep + text[mm.end():]
+    return text, apps
+
+
+def rule_sortsec(text):
+    """`V.sort_unstable_by_key(|entry| entry.record.sector.load(Ordering::Acquire))` -> `sort_by_sector(&mut V)`"""
+    apps = []
+    m = mask(text)
+    mm = re.search(r"(\w+)\s*\.\s*sort_unstable_by_key\s*\(", m)
+    if mm:
+        op = mm.end() - 1
+        cl = match_close(m, op)
+        parts = _closure_parts(text[op + 1:cl])
+        if parts and re.fullmatch(r"%s\s*\.\s*record\s*\.\s*sector\s*\.\s*load\s*\(\s*Ordering::Acquire\s*\)" % re.escape(parts[0]), parts[1].strip()):
+            new = "sort_by_sector(&mut %s)" % mm.group(1)
+            apps.append(_app("R-sort", text, mm.start(), cl + 1, new, "shim: the result is a permutation of the input (its order is not relied on)"))
+            text = text[:mm.start()] + new + text[cl + 1:]
+    return text, apps
+
+
+def rule_wbmisc(text):
+    """write-batch one-offs: Bytes::from(mem::take(&mut X)); X.extend(V.drain(..)); the retry backoff block"""
+    apps = []
+    table = [
+        (r"Bytes\s*::\s*from\s*\(\s*std\s*::\s*mem\s*::\s*take\s*\(\s*&mut\s+([\w.]+)\s*\)\s*\)", r"bytes_take(&mut \1)", "R-bytes",
+         "shim: mem::take leaves an empty Vec, Bytes::from wraps the taken bytes"),
+        (r"\.\s*extend\s*\(\s*(\w+)\s*\.\s*drain\s*\(\s*\.\.\s*\)\s*\)", r".extend_drained(&mut \1)", "R-extend",
+         "shim: every drained element moves into the receiver, the source is left empty"),
+        (r"let\s+jitter\s*=\s*\{\s*use\s+rand::Rng;\s*let\s+mut\s+rng\s*=\s*rand::rng\(\);\s*\(\s*delay_us\s*\*\s*rng\.random_range\(\s*-10\s*\.\.=\s*10\s*\)\s*\)\s*/\s*100\s*\}\s*;",
+         "let jitter = backoff_jitter(delay_us);", "R-backoff", "shim: a pseudo-random jitter within +-10 % of the delay"),
+        (r"\(\s*delay_us\s*\+\s*jitter\s*\)\s*\.\s*max\s*\(\s*1\s*\)", "max_i32(delay_us + jitter, 1)", "R-min", "definition of Ord::max on i32"),
+        (r"std\s*::\s*io\s*::\s*Error\s*::\s*other\s*\(\s*\"[^\"]*\"\s*,?\s*\)", "io_error_other()", "R-ioerr", "shim: an opaque std::io::Error (only the variant matters)"),
+        (r"std\s*::\s*sync\s*::\s*atomic\s*::\s*fence\s*\(", "atomic_fence(", "R-fence", "shim: a memory fence has no sequential effect (A3)"),
+        (r"(\w+)\s*\.\s*iter\s*\(\s*\)\s*\.\s*map\s*\(\s*\|\s*write\s*\|\s*\{\s*\(\s*write\s*\.\s*sector\s*\.\s*expect\s*\(\s*\"[^\"]*\"\s*\)\s*,\s*write\s*\.\s*sectors_needed\s*,?\s*\)\s*\}\s*\)\s*\.\s*collect\s*::\s*<\s*Vec\s*<\s*_\s*>\s*>\s*\(\s*\)",
+         r"journal_extents_of(&\1)", "R-collect", "shim: iter + map + collect = the (sector, length) pair of every prepared write, in order; `expect` becomes the shim's precondition"),
+        (r"thread\s*::\s*sleep\s*\(\s*Duration\s*::\s*from_micros\s*\(\s*([^()]*)\)\s*\)", r"sleep_micros(\1)", "R-backoff", "shim: sleeping changes no program state"),
+    ]
+    for pat, rep, rname, why in table:
+        while True:
+            mm = re.search(pat, text)
+            if not mm:
+                break
+            new = mm.expand(rep)
+            apps.append(_app(rname, text, mm.start(), mm.end(), new, why))
+            text = text[:mm.start()] + new + text[mm.end():]
+    return text, apps
